@@ -46,7 +46,7 @@ func init() {
 func (c *c19) Cases(tier string, seed int64) []core.Case {
 	var cs []core.Case
 	r := core.Rng("C19", tier, seed)
-	nsets := map[string]int{"quick": 1, "thorough": 4}[tier]
+	nsets := map[string]int{"quick": 1, "thorough": 10}[tier]
 	parts := 8
 	cs = append(cs, core.MkCase("fixed-absurd-slice-size", c19Params{Seed: 5, Fmt: "par2", Family: "fixed-absurd-slice-size", Damage: "intact", Parts: 1}))
 	for s := 0; s < nsets; s++ {
